@@ -3,7 +3,7 @@
    flate2 / zstd / snap / lz4_flex / encoding_rs / idna computed, or that it failed or panicked); what is
    modelled is what the VRL source itself does: option conversion and range checks, defaults, dispatch
    (lz4 frame magic, prepended size), error mapping, and which library failures are turned into a VRL
-   error and which are let through as a panic (`.expect(..)`, `.unwrap()`, `Vec::with_capacity`).
+   error and which are let through as a panic (`.expect(..)`).
    Definitions only. *)
 From Coq Require Import List NArith ZArith Bool.
 From VRL Require Import Base.Bytes Model.Base16 Model.CodecUtf8 Model.Punycode.
@@ -59,38 +59,32 @@ Definition read_le (b0 b1 b2 b3 : N) : N := (b0 + 256 * b1 + 65536 * b2 + 167772
 Definition encode_lz4 (compress : bytes -> bytes) (prepend : bool) (v : bytes) : res :=
   ROk (if prepend then size_le (N.of_nat (length v)) ++ compress v else compress v).
 
-Definition usize_max : Z := 2 ^ 64 - 1.
-Definition isize_max : Z := 2 ^ 63 - 1.
-(* `if let Ok(sz) = u32::try_from(buf_size) { sz as usize } else { usize::MAX }` *)
-Definition buffer_size (buf : Z) : Z := if (0 <=? buf) && (buf <? 2 ^ 32) then buf else usize_max.
+(* `let Ok(buffer_size) = u32::try_from(buf_size) else { return Err("`buf_size` must be between 0 and ..") }`
+   (since c2888f1; before, an out-of-range value became usize::MAX and the allocation panicked) *)
+Definition buf_valid (buf : Z) : bool := (0 <=? buf) && (buf <? 2 ^ 32).
 
-(* decompress : block -> capacity -> result      frame_dec : frame -> result
-   A capacity above isize::MAX makes `vec![0; n]` / `Vec::with_capacity(n)` panic ("capacity overflow"). *)
+(* decompress : block -> capacity -> result      frame_dec : frame -> result *)
 Definition decode_lz4 (decompress : bytes -> N -> lres) (frame_dec : bytes -> lres)
            (buf : Z) (prepended : bool) (v : bytes) : res :=
-  let bs := buffer_size buf in
-  if starts_with lz4_magic v then
-    if isize_max <? bs then RPanic else map_err (frame_dec v)
+  if negb (buf_valid buf) then RErr
+  else if starts_with lz4_magic v then map_err (frame_dec v)
   else if prepended then
     match v with
     | b0 :: b1 :: b2 :: b3 :: rest => map_err (decompress rest (read_le b0 b1 b2 b3))
     | _ => RErr                                            (* fewer than 4 bytes *)
     end
-  else if isize_max <? bs then RPanic
-  else map_err (decompress v (Z.to_N bs)).
+  else map_err (decompress v (Z.to_N buf)).
 
 (* ---------- charset ---------- *)
 (* for_label : label -> encoding id;  cs_encode / cs_decode : encoding_rs Encoding::encode / ::decode
-   (the had-errors flags are dropped by the VRL code).  encode_charset does
-   `from_utf8(value).unwrap()`: invalid UTF-8 input is a panic. *)
+   (the had-errors flags are dropped by the VRL code).  encode_charset takes its input through
+   String::from_utf8_lossy (since a0ffe6c; before, `from_utf8(value).unwrap()` panicked on invalid UTF-8). *)
 Definition encode_charset {E} (for_label : bytes -> option E) (cs_encode : E -> bytes -> bytes)
            (label v : bytes) : res :=
-  if valid_utf8 v then
-    match for_label label with
-    | Some e => ROk (cs_encode e v)
-    | None => RErr                                         (* "Unknown charset" *)
-    end
-  else RPanic.
+  match for_label label with
+  | Some e => ROk (cs_encode e (utf8_lossy v))
+  | None => RErr                                         (* "Unknown charset" *)
+  end.
 
 Definition decode_charset {E} (for_label : bytes -> option E) (cs_decode : E -> bytes -> bytes)
            (label v : bytes) : res :=
